@@ -674,7 +674,8 @@ pub fn generate(name: &str, count: usize, rng: &mut Rng, sink: &mut dyn FnMut(Se
         // every truncation point of a line (token boundaries and inside tokens) x every way the
         // line can end there
         "v1trunc" => {
-            let enders: [&[u8]; 9] = [b"\rX", b"\r\r", b"\r\n", b"\r", b"\n", b"", b"\r\r\n", b"\r ", b"\r\x00"];
+            let enders: [&[u8]; 12] = [b"\rX", b"\r\r", b"\r\n", b"\r", b"\n", b"", b"\r\r\n", b"\r ", b"\r\x00",
+                                       "\r\u{e9}".as_bytes(), "\r\u{20ac}".as_bytes(), "\r\u{1F600}".as_bytes()];
             for i in 0..count {
                 let toks = random_line_tokens(rng);
                 let n = toks.len();
